@@ -17,8 +17,8 @@ HT == HTLCs(HashSet, 2)
 \* canonical order of HTLCs inside a content: by direction, hash, amount
 Rank(x) == (IF x.d = "o" THEN 0 ELSE 100) + (IF x.h = "h1" THEN 0 ELSE 10) + x.a
 Contents == {<<>>} \cup {<<x>> : x \in HT} \cup {<<p[1], p[2]>> : p \in {q \in HT \X HT : Rank(q[1]) <= Rank(q[2])}}
-NodeReqs == {[op |-> "AddInvoice", h |-> h, a |-> a] : h \in HashSet, a \in 1..3}
-        \cup {[op |-> "AddKeysend", h |-> h, a |-> a] : h \in HashSet, a \in 1..2}
+NodeReqs == {[op |-> "AddInvoice", h |-> h, a |-> a] : h \in HashSet, a \in 0..3}
+        \cup {[op |-> "AddKeysend", h |-> h, a |-> a] : h \in HashSet, a \in 0..2}
         \cup {[op |-> "DeclineInvoice", h |-> h, a |-> 2] : h \in HashSet}
         \cup {[op |-> "IssueInvoice", h |-> h, a |-> a] : h \in HashSet, a \in 1..2}
         \cup {[op |-> "Fulfill", h |-> h] : h \in HashSet}
